@@ -113,8 +113,6 @@ Ltac Zify.zify_post_hook ::= Z.to_euclidean_division_equations.
 Definition cres sz (r : res value) : res value := match r with Ok v => Ok (canon sz v) | x => x end.
 Definition amask (sz : N) : N := 2 ^ (8 * sz) - 1.
 Definition addr_size (sz : N) : Prop := sz = 1 \/ sz = 2 \/ sz = 4 \/ sz = 8.
-(* the count operand of a shift: a generic count must be canonical (see shift_count_refuted) *)
-Definition count_ok (sz : N) (b : value) : Prop := vty b = TGeneric -> vbits b < 2 ^ (8 * sz).
 
 Ltac norm8 := change (8 * 1) with 8 in *; change (8 * 2) with 16 in *; change (8 * 4) with 32 in *; change (8 * 8) with 64 in *.
 Ltac sizes SZ :=
@@ -312,17 +310,17 @@ Proof.
   all: vnorm; sizes SZ.
   all: unf; norm8; split_ifs; try reflexivity; try (f_equal; f_equal; lia); try (f_equal; f_equal; f_equal; lia).
 Qed.
-Lemma shift_length_spec sz b : addr_size sz -> wf_value b = true -> count_ok sz b ->
-  match shift_length b with
+Lemma shift_length_spec sz b : addr_size sz -> wf_value b = true ->
+  match shift_length b (amask sz) with
   | Ok v2 => sp_count sz (canon sz b) = Ok (Z.of_N v2)
   | Err e => sp_count sz (canon sz b) = Err e
   | _ => False
   end.
 Proof.
-  intros SZ WB CB. unfold shift_length, sp_count, count_ok in *.
+  intros SZ WB. unfold shift_length, sp_count, amask in *.
   destruct b as [tb vb]; unfold wf_value, is_float, as_int in *; cbn [vty vbits] in *.
   destruct tb; unfold modulus in *; cbn [tclass_of width tbits vty vbits canon] in *; vnorm; try reflexivity.
-  1: { specialize (CB eq_refl). sizes SZ; unf; norm8; rewrite N.mod_small by lia; split_ifs; try reflexivity; lia. }
+  1: { unfold modulus; cbn [tbits]. sizes SZ; unf; norm8; split_ifs; try reflexivity; lia. }
   all: unfold to_signed, wrapN; split_ifs; try reflexivity; try (f_equal; lia); try lia.
 Qed.
 
@@ -337,11 +335,11 @@ Proof.
   apply N2Z.id.
 Qed.
 
-Lemma vshl_spec sz a b : addr_size sz -> wf_value a = true -> wf_value b = true -> count_ok sz b ->
+Lemma vshl_spec sz a b : addr_size sz -> wf_value a = true -> wf_value b = true ->
   cres sz (vshl a b (amask sz)) = sp_shl sz (canon sz a) (canon sz b).
 Proof.
-  intros SZ WA WB CB. unfold vshl, sp_shl. pose proof (shift_length_spec sz b SZ WB CB) as HS.
-  destruct (shift_length b) as [v2|e| |]; try contradiction; rewrite HS; cbn [bind]; [|reflexivity].
+  intros SZ WA WB. unfold vshl, sp_shl. pose proof (shift_length_spec sz b SZ WB) as HS.
+  destruct (shift_length b (amask sz)) as [v2|e| |]; try contradiction; rewrite HS; cbn [bind]; [|reflexivity].
   unfold amask. rewrite mask_bit_size_eq.
   destruct a as [ta va]; unfold wf_value in *; cbn [vty vbits] in *.
   unfold cres, of_int, is_float.
@@ -354,11 +352,11 @@ Proof.
   all: try match goal with |- context [?x * 2 ^ ?c] => generalize (x * 2 ^ c); intros y end.
   all: fin.
 Qed.
-Lemma vshr_spec sz a b : addr_size sz -> wf_value a = true -> wf_value b = true -> count_ok sz b ->
+Lemma vshr_spec sz a b : addr_size sz -> wf_value a = true -> wf_value b = true ->
   cres sz (vshr a b (amask sz)) = sp_shr sz (canon sz a) (canon sz b).
 Proof.
-  intros SZ WA WB CB. unfold vshr, sp_shr. pose proof (shift_length_spec sz b SZ WB CB) as HS.
-  destruct (shift_length b) as [v2|e| |]; try contradiction; rewrite HS; cbn [bind]; [|reflexivity].
+  intros SZ WA WB. unfold vshr, sp_shr. pose proof (shift_length_spec sz b SZ WB) as HS.
+  destruct (shift_length b (amask sz)) as [v2|e| |]; try contradiction; rewrite HS; cbn [bind]; [|reflexivity].
   unfold amask. rewrite mask_bit_size_eq.
   destruct a as [ta va]; unfold wf_value in *; cbn [vty vbits] in *.
   unfold cres, of_int, as_int.
@@ -374,11 +372,11 @@ Proof.
   all: fin.
 Qed.
 
-Lemma vshra_spec sz a b : addr_size sz -> wf_value a = true -> wf_value b = true -> count_ok sz b ->
+Lemma vshra_spec sz a b : addr_size sz -> wf_value a = true -> wf_value b = true ->
   cres sz (vshra a b (amask sz)) = sp_shra sz (canon sz a) (canon sz b).
 Proof.
-  intros SZ WA WB CB. unfold vshra, sp_shra. pose proof (shift_length_spec sz b SZ WB CB) as HS.
-  destruct (shift_length b) as [v2|e| |]; try contradiction; rewrite HS; cbn [bind]; [|reflexivity].
+  intros SZ WA WB. unfold vshra, sp_shra. pose proof (shift_length_spec sz b SZ WB) as HS.
+  destruct (shift_length b (amask sz)) as [v2|e| |]; try contradiction; rewrite HS; cbn [bind]; [|reflexivity].
   rewrite !(amask_se sz _ SZ). unfold amask. rewrite mask_bit_size_eq.
   destruct a as [ta va]; unfold wf_value in *; cbn [vty vbits] in *.
   unfold cres, of_int, as_int.
@@ -392,13 +390,13 @@ Proof.
 Qed.
 End Ops.
 
-(* ---------------------------------------------------------------- the shift count is not reduced (finding) *)
+(* ---------------------------------------------------------------- a fops instance for closed examples *)
 Definition no_fops : fops := mkFops (fun _ a _ => a) (fun _ a _ => a) (fun _ a _ => a) (fun _ a _ => a)
   (fun _ x => x) (fun _ _ _ x => x) (fun _ x => x).
 
-(* address size 4: the generic count 2^32+1 denotes 1, but Value::shl treats it as a count >= 32 *)
-Lemma shift_count_witness :
-  cres 4 (vshl (mkV TGeneric 1) (mkV TGeneric 4294967297) (amask 4)) = Ok (mkV TGeneric 0) /\
+(* address size 4: the generic count 2^32+1 denotes 1 (before repair 0858756 Value::shl treated it as >= 32) *)
+Lemma shift_count_repaired :
+  cres 4 (vshl (mkV TGeneric 1) (mkV TGeneric 4294967297) (amask 4)) = Ok (mkV TGeneric 2) /\
   sp_shl 4 (canon 4 (mkV TGeneric 1)) (canon 4 (mkV TGeneric 4294967297)) = Ok (mkV TGeneric 2).
 Proof. split; vm_compute; reflexivity. Qed.
 
@@ -408,9 +406,6 @@ Definition agrees1 (sz : N) (m : value -> N -> res value) (s : value -> res valu
 Definition agrees2 (sz : N) (m : value -> value -> N -> res value) (s : value -> value -> res value) : Prop :=
   forall a b, addr_size sz -> wf_value a = true -> wf_value b = true ->
     cres sz (m a b (amask sz)) = s (canon sz a) (canon sz b).
-Definition agrees_shift (sz : N) (m : value -> value -> N -> res value) (s : value -> value -> res value) : Prop :=
-  forall a b, addr_size sz -> wf_value a = true -> wf_value b = true -> count_ok sz b ->
-    cres sz (m a b (amask sz)) = s (canon sz a) (canon sz b).
 
 Lemma value_ops_lemma (F : fops) (sz : N) :
   agrees2 sz (vadd F) (sp_add sz F) /\ agrees2 sz (vsub F) (sp_sub sz F) /\ agrees2 sz (vmul F) (sp_mul sz F) /\
@@ -419,11 +414,11 @@ Lemma value_ops_lemma (F : fops) (sz : N) :
   agrees1 sz (vnot F) (sp_not sz) /\ agrees1 sz vneg (sp_neg sz) /\ agrees1 sz vabs (sp_abs sz) /\
   agrees2 sz veq (sp_eq sz) /\ agrees2 sz vge (sp_ge sz) /\ agrees2 sz vgt (sp_gt sz) /\
   agrees2 sz vle (sp_le sz) /\ agrees2 sz vlt (sp_lt sz) /\ agrees2 sz vne (sp_ne sz) /\
-  agrees_shift sz vshl (sp_shl sz) /\ agrees_shift sz vshr (sp_shr sz) /\ agrees_shift sz vshra (sp_shra sz) /\
+  agrees2 sz vshl (sp_shl sz) /\ agrees2 sz vshr (sp_shr sz) /\ agrees2 sz vshra (sp_shra sz) /\
   (forall a t, addr_size sz -> wf_value a = true -> cres sz (convert F a t (amask sz)) = sp_convert sz F (canon sz a) t) /\
   (forall a t, addr_size sz -> wf_value a = true -> cres sz (reinterpret a t (amask sz)) = sp_reinterpret sz (canon sz a) t).
 Proof.
-  unfold agrees1, agrees2, agrees_shift.
+  unfold agrees1, agrees2.
   repeat split; intros.
   - now apply vadd_spec. - now apply vsub_spec. - now apply vmul_spec. - now apply vdiv_spec.
   - now apply vrem_spec. - now apply vand_spec. - now apply vor_spec. - now apply vxor_spec.
@@ -434,42 +429,29 @@ Proof.
   - now apply convert_spec. - now apply reinterpret_spec.
 Qed.
 
-Lemma shift_count_refuted_lemma :
-  exists (sz : N) (a b : value), addr_size sz /\ wf_value a = true /\ wf_value b = true /\
-    cres sz (vshl a b (amask sz)) <> sp_shl sz (canon sz a) (canon sz b).
-Proof.
-  exists 4, (mkV TGeneric 1), (mkV TGeneric 4294967297).
-  destruct shift_count_witness as [H1 H2]. repeat split; try (right; right; left; reflexivity).
-  rewrite H1, H2. discriminate.
-Qed.
-
 (* "generic values compared modulo the address size" at the level of single operations: operands
    that denote the same canonical values give results that denote the same canonical value *)
 Lemma mask_invariance_ops (F : fops) (sz : N) (a a' b b' : value) :
   addr_size sz -> wf_value a = true -> wf_value a' = true -> wf_value b = true -> wf_value b' = true ->
   canon sz a = canon sz a' -> canon sz b = canon sz b' ->
-  (forall op, In op [vadd F; vsub F; vmul F; vdiv F; vrem; vand F; vor F; vxor F; veq; vge; vgt; vle; vlt; vne] ->
+  (forall op, In op [vadd F; vsub F; vmul F; vdiv F; vrem; vand F; vor F; vxor F; veq; vge; vgt; vle; vlt; vne;
+                     vshl; vshr; vshra] ->
      cres sz (op a b (amask sz)) = cres sz (op a' b' (amask sz))) /\
   (forall op, In op [vnot F; vneg; vabs] -> cres sz (op a (amask sz)) = cres sz (op a' (amask sz))) /\
-  (forall op, In op [vshl; vshr; vshra] -> count_ok sz b -> count_ok sz b' ->
-     cres sz (op a b (amask sz)) = cres sz (op a' b' (amask sz))) /\
   (forall t, cres sz (convert F a t (amask sz)) = cres sz (convert F a' t (amask sz))) /\
   (forall t, cres sz (reinterpret a t (amask sz)) = cres sz (reinterpret a' t (amask sz))).
 Proof.
   intros SZ WA WA' WB WB' CA CB.
   destruct (value_ops_lemma F sz) as (H1 & H2 & H3 & H4 & H5 & H6 & H7 & H8 & H9 & H10 & H11 & H12 & H13 & H14 &
     H15 & H16 & H17 & H18 & H19 & H20 & H21 & H22).
-  unfold agrees1, agrees2, agrees_shift in *.
+  unfold agrees1, agrees2 in *.
   repeat split.
-  - intros op [<-|[<-|[<-|[<-|[<-|[<-|[<-|[<-|[<-|[<-|[<-|[<-|[<-|[<-|[]]]]]]]]]]]]]]];
+  - intros op [<-|[<-|[<-|[<-|[<-|[<-|[<-|[<-|[<-|[<-|[<-|[<-|[<-|[<-|[<-|[<-|[<-|[]]]]]]]]]]]]]]]]]];
       match goal with H : forall a b, _ -> _ -> _ -> cres sz (?f a b _) = _ |- cres sz (?f _ _ _) = _ =>
         rewrite !H by assumption; now rewrite CA, CB end.
   - intros op [<-|[<-|[<-|[]]]];
       match goal with H : forall a, _ -> _ -> cres sz (?f a _) = _ |- cres sz (?f _ _) = _ =>
         rewrite !H by assumption; now rewrite CA end.
-  - intros op [<-|[<-|[<-|[]]]] C1 C2;
-      match goal with H : forall a b, _ -> _ -> _ -> _ -> cres sz (?f a b _) = _ |- cres sz (?f _ _ _) = _ =>
-        rewrite !H by assumption; now rewrite CA, CB end.
   - intros t. rewrite !H21 by assumption. now rewrite CA.
   - intros t. rewrite !H22 by assumption. now rewrite CA.
 Qed.
